@@ -244,16 +244,20 @@ def match_known(v, known):
             continue
         if k.get('gotrace') and not any(k['gotrace'] in f for f in v.get('gotrace', [])):
             continue
+        items = (v.get('model') or {}).get('schedule', []) or []
+
+        def hit(pat, line):
+            # 're:<regex>' matches a schedule line by regular expression (used to name the FUNCTION an operation is in
+            # rather than its line number, so that edits elsewhere in the file do not change the identification)
+            return re.search(pat[3:], line) is not None if pat.startswith('re:') else pat in line
         if k.get('schedule_contains'):
-            sched = ' '.join((v.get('model') or {}).get('schedule', []) or [])
-            if not all(x in sched for x in k['schedule_contains']):
+            if not all(any(hit(x, l) for l in items) or (not x.startswith('re:') and x in ' '.join(items)) for x in k['schedule_contains']):
                 continue
         if k.get('schedule_order'):
             # the listed steps occur in this order in the schedule
-            items = (v.get('model') or {}).get('schedule', []) or []
             pos, okk = 0, True
             for x in k['schedule_order']:
-                nxt = next((i for i in range(pos, len(items)) if x in items[i]), None)
+                nxt = next((i for i in range(pos, len(items)) if hit(x, items[i])), None)
                 if nxt is None:
                     okk = False
                     break
